@@ -814,3 +814,35 @@ func initStore(cell ssa.Value) *ssa.Store {
 	}
 	return st[0]
 }
+
+// rr returns the values a return statement hands back.  In functions with defers go/ssa spills the
+// results into local cells (`*t1 = v; rundefers; t9 = *t1; return t9`); the loads are resolved to the
+// values stored in the same block.
+func rr(r *ssa.Return) []ssa.Value {
+	out := make([]ssa.Value, len(r.Results))
+	for i, v := range r.Results {
+		out[i] = v
+		ld, ok := v.(*ssa.UnOp)
+		if !ok || ld.Op != token.MUL || ld.Block() != r.Block() {
+			continue
+		}
+		al, ok := ld.X.(*ssa.Alloc)
+		if !ok {
+			continue
+		}
+		idx := instrIndex(ld)
+		sawDefers := false
+		for j := idx - 1; j >= 0; j-- {
+			switch in := r.Block().Instrs[j].(type) {
+			case *ssa.RunDefers:
+				sawDefers = true
+			case *ssa.Store:
+				if in.Addr == ssa.Value(al) && sawDefers {
+					out[i] = in.Val
+					j = -1
+				}
+			}
+		}
+	}
+	return out
+}
